@@ -32,14 +32,54 @@ pub struct Cfg {
     pub slow_eighths: u32,
     /// 0 default classifier; 1 custom: Ok flagged requests count as failures, Err kind 1 does not
     pub classifier: u8,
+    /// seed of the order in which the builder's setters are called (0 = the order of the docs)
+    #[serde(default)]
+    pub order: u64,
+    /// the custom classifier is installed before (true) or after all other settings
+    #[serde(default)]
+    pub classifier_first: bool,
+    /// thresholds given in hundredths instead of eighths (exact-threshold scenarios)
+    #[serde(default)]
+    pub fail_hundredths: Option<u32>,
+    #[serde(default)]
+    pub slow_hundredths: Option<u32>,
+}
+
+impl Cfg {
+    /// failure-rate threshold as a fraction (numerator, denominator)
+    fn fail_frac(&self) -> (usize, usize) {
+        match self.fail_hundredths {
+            Some(h) => (h as usize, 100),
+            None => (self.fail_eighths as usize, 8),
+        }
+    }
+    fn slow_frac(&self) -> (usize, usize) {
+        match self.slow_hundredths {
+            Some(h) => (h as usize, 100),
+            None => (self.slow_eighths as usize, 8),
+        }
+    }
+    fn setter_order(&self) -> Vec<usize> {
+        let mut v: Vec<usize> = (0..8).collect();
+        if self.order != 0 {
+            let mut r = Rng::new(self.order);
+            for i in (1..v.len()).rev() {
+                let j = r.below(i as u64 + 1) as usize;
+                v.swap(i, j);
+            }
+        }
+        v
+    }
 }
 
 fn cfg_valid(c: &Cfg) -> bool {
     c.size >= 1
-        && c.size <= 8
+        && c.size <= 100
         && c.duration_ms >= 10
         && c.duration_ms <= 500
-        && c.min_calls.map(|m| m >= 1 && m <= 12).unwrap_or(true)
+        && c.min_calls.map(|m| m >= 1 && m <= 110).unwrap_or(true)
+        && c.fail_hundredths.map(|h| h <= 100).unwrap_or(true)
+        && c.slow_hundredths.map(|h| h <= 100).unwrap_or(true)
         && c.fail_eighths <= 8
         && ((c.wait_ms >= 5 && c.wait_ms <= 500) || c.wait_ms == u64::MAX)
         && c.permitted >= 1
@@ -54,14 +94,14 @@ fn min_calls(c: &Cfg) -> usize {
 }
 
 macro_rules! build_layer {
-    ($cfg:expr, $b:ident => $fin:expr) => {{
+    ($cfg:expr, $b:ident => $fin:expr) => {
+        build_layer!($cfg, CircuitBreakerLayer::builder(), $b => $fin)
+    };
+    ($cfg:expr, $start:expr, $b:ident => $fin:expr) => {{
         let c: &Cfg = $cfg;
-        let mut $b = CircuitBreakerLayer::builder()
-            .failure_rate_threshold(c.fail_eighths as f64 / 8.0)
-            .sliding_window_size(c.size as usize)
-            .wait_duration_in_open(if c.wait_ms == u64::MAX { Duration::MAX } else { Duration::from_millis(c.wait_ms) })
-            .permitted_calls_in_half_open(c.permitted as usize)
-            .slow_call_rate_threshold(c.slow_eighths as f64 / 8.0)
+        let (fnum, fden) = c.fail_frac();
+        let (snum, sden) = c.slow_frac();
+        let mut $b = $start
             .on_state_transition(|from, to| {
                 world::note("transition", from as i64, to as i64);
             })
@@ -71,16 +111,26 @@ macro_rules! build_layer {
             .on_call_rejected(|| {
                 world::note("rejected", 0, 0);
             });
-        if c.time_based {
-            $b = $b
-                .sliding_window_type(SlidingWindowType::TimeBased)
-                .sliding_window_duration(Duration::from_millis(c.duration_ms));
-        }
-        if let Some(m) = c.min_calls {
-            $b = $b.minimum_number_of_calls(m as usize);
-        }
-        if let Some(s) = c.slow_ms {
-            $b = $b.slow_call_duration_threshold(Duration::from_millis(s));
+        for k in c.setter_order() {
+            $b = match k {
+                0 => $b.failure_rate_threshold(fnum as f64 / fden as f64),
+                1 => $b.sliding_window_size(c.size as usize),
+                2 => $b.wait_duration_in_open(if c.wait_ms == u64::MAX { Duration::MAX } else { Duration::from_millis(c.wait_ms) }),
+                3 => $b.permitted_calls_in_half_open(c.permitted as usize),
+                4 => $b.slow_call_rate_threshold(snum as f64 / sden as f64),
+                5 if c.time_based => $b
+                    .sliding_window_type(SlidingWindowType::TimeBased)
+                    .sliding_window_duration(Duration::from_millis(c.duration_ms)),
+                6 => match c.min_calls {
+                    Some(m) => $b.minimum_number_of_calls(m as usize),
+                    None => $b,
+                },
+                7 => match c.slow_ms {
+                    Some(s) => $b.slow_call_duration_threshold(Duration::from_millis(s)),
+                    None => $b,
+                },
+                _ => $b,
+            };
         }
         $fin
     }};
@@ -204,8 +254,9 @@ impl Model {
                     }
                     let fails = self.window.iter().filter(|r| r.fail).count();
                     let slows = self.window.iter().filter(|r| r.slow).count();
-                    let open = fails * 8 >= c.fail_eighths as usize * n
-                        || (c.slow_ms.is_some() && slows * 8 >= c.slow_eighths as usize * n);
+                    let (fnum, fden) = c.fail_frac();
+                    let (snum, sden) = c.slow_frac();
+                    let open = fails * fden >= fnum * n || (c.slow_ms.is_some() && slows * sden >= snum * n);
                     if open {
                         self.to(1, now);
                     }
@@ -276,10 +327,68 @@ fn gen_cfg(rng: &mut Rng, small: bool) -> Cfg {
         slow_ms: if rng.chance(1, 3) { Some(20) } else { None },
         slow_eighths: *rng.pick(&[4u32, 4, 6, 8, 8]),
         classifier: if rng.chance(1, 4) { 1 } else { 0 },
+        order: if rng.chance(1, 2) { rng.next_u64() | 1 } else { 0 },
+        classifier_first: rng.chance(1, 2),
+        fail_hundredths: None,
+        slow_hundredths: None,
     }
 }
 
+/// A full window whose failure (or slow-call) count sits exactly on, one below or one above the
+/// threshold: thresholds k/n for window sizes up to 100.
+fn gen4_exact(rng: &mut Rng) -> Scn4 {
+    let mut cfg = gen_cfg(rng, false);
+    let n = *rng.pick(&[10u32, 20, 25, 50, 100, 100]);
+    let k = rng.range(1, n as u64 - 1) as u32;
+    let h = 100 * k / n;
+    cfg.size = n;
+    cfg.time_based = rng.chance(1, 3);
+    cfg.duration_ms = 100;
+    cfg.min_calls = *rng.pick(&[None, None, Some(n), Some(n / 2)]);
+    let on_slow = rng.chance(1, 3);
+    if on_slow {
+        cfg.slow_ms = Some(20);
+        cfg.slow_hundredths = Some(h);
+        cfg.fail_hundredths = Some(100);
+        cfg.fail_eighths = 8;
+    } else {
+        cfg.fail_hundredths = Some(h);
+        cfg.slow_hundredths = Some(100);
+        if cfg.slow_ms.is_some() {
+            cfg.slow_eighths = 8;
+        }
+    }
+    cfg.classifier = 0;
+    // n calls, `bad` of them failing (or slow), in a seeded order; then a few more
+    let bad = (k as i64 + *rng.pick(&[-1i64, 0, 0, 0, 1])).clamp(0, n as i64) as u32;
+    let mut marks: Vec<bool> = (0..n).map(|i| i < bad).collect();
+    for i in (1..marks.len()).rev() {
+        let j = rng.below(i as u64 + 1) as usize;
+        marks.swap(i, j);
+    }
+    let mut steps = vec![];
+    for m in marks {
+        steps.push(if on_slow {
+            Step::Call { lat_ms: if m { 30 } else { 0 }, err: None, flag: false }
+        } else {
+            Step::Call { lat_ms: 0, err: if m { Some(0) } else { None }, flag: false }
+        });
+    }
+    for _ in 0..rng.range(0, 12) {
+        let bad = rng.chance(1, 2);
+        steps.push(if on_slow {
+            Step::Call { lat_ms: if bad { 30 } else { 0 }, err: None, flag: false }
+        } else {
+            Step::Call { lat_ms: 0, err: if bad { Some(0) } else { None }, flag: false }
+        });
+    }
+    Scn4 { cfg, steps }
+}
+
 pub fn gen4(rng: &mut Rng) -> Scn4 {
+    if rng.chance(1, 8) {
+        return gen4_exact(rng);
+    }
     let cfg = gen_cfg(rng, false);
     let n = rng.range(10, 80) as usize;
     let p_fail = *rng.pick(&[15u64, 40, 50, 60, 85]);
@@ -312,7 +421,7 @@ pub fn gen4(rng: &mut Rng) -> Scn4 {
 pub fn valid4(s: &Scn4) -> bool {
     cfg_valid(&s.cfg)
         && !s.steps.is_empty()
-        && s.steps.len() <= 100
+        && s.steps.len() <= 260
         && s.steps.iter().all(|st| match st {
             Step::Call { lat_ms, err, .. } => *lat_ms <= 100 && err.map(|k| k <= 1).unwrap_or(true) && s.cfg.slow_ms.map(|t| *lat_ms != t).unwrap_or(true),
             Step::Advance(d) => *d >= 1 && *d <= 500,
@@ -363,12 +472,15 @@ pub fn run4(s: &Scn4, ctx: &mut RunCtx) -> RunOutput {
             Box::new(move || Box::pin(drive4(cfg, steps, svc, flagged)))
         } else {
             let fl = flagged.clone();
-            let layer = build_layer!(&cfg, b => b
-                .failure_classifier(move |r: &Result<Resp, SimErr>| match r {
-                    Ok(resp) => fl.contains(&resp.req),
-                    Err(e) => e.kind == 0,
-                })
-                .build());
+            let classify = move |r: &Result<Resp, SimErr>| match r {
+                Ok(resp) => fl.contains(&resp.req),
+                Err(e) => e.kind == 0,
+            };
+            let layer = if cfg.classifier_first {
+                build_layer!(&cfg, CircuitBreakerLayer::builder().failure_classifier(classify), b => b.build())
+            } else {
+                build_layer!(&cfg, b => b.failure_classifier(classify).build())
+            };
             let svc = layer.layer(SimInner::new(0));
             Box::new(move || Box::pin(drive4(cfg, steps, svc, flagged)))
         };
@@ -573,6 +685,10 @@ pub struct Caller {
     pub start_ms: u64,
     pub beh: Behaviour,
     pub cancel: CancelSpec,
+    /// with a fallback configured: this caller goes through a plain clone taken before
+    /// `with_fallback` (same breaker, no fallback)
+    #[serde(default)]
+    pub via_plain: bool,
 }
 
 #[derive(Clone, Debug, Serialize, Deserialize, PartialEq)]
@@ -588,6 +704,10 @@ pub struct Scn3 {
     #[serde(default)]
     pub buggify: u64,
     pub knobs: SchedKnobs,
+    /// with a fallback configured: manual overrides go through a plain clone taken before
+    /// `with_fallback`
+    #[serde(default)]
+    pub overrides_via_plain: bool,
 }
 
 /// Multi-phase half-open histories: trials that outlive their episode, cancels aimed at
@@ -616,6 +736,7 @@ fn gen3_multi_phase(rng: &mut Rng) -> Scn3 {
                 start_ms,
                 beh: Behaviour { lat_ms, out: if rng.chance(2, 5) { Outcome::Err(0) } else { Outcome::Ok }, yields: *rng.pick(&[0u8, 0, 1]) },
                 cancel: if rng.chance(3, 10) { CancelSpec::AtMs(start_ms + *rng.pick(&[5u64, wait, wait + 5, wait + 15, 2 * wait + 10])) } else { CancelSpec::Never },
+                via_plain: rng.chance(1, 4),
             });
             if callers.len() >= 15 {
                 break;
@@ -635,6 +756,7 @@ fn gen3_multi_phase(rng: &mut Rng) -> Scn3 {
         reset_at: None,
         probe: true,
         buggify: if rng.chance(1, 2) { rng.next_u64() | 1 } else { 0 },
+        overrides_via_plain: rng.chance(1, 2),
         knobs: SchedKnobs::gen(rng, false, 100),
     }
 }
@@ -669,6 +791,7 @@ pub fn gen3(rng: &mut Rng, half_open_bias: bool) -> Scn3 {
                 yields: *rng.pick(&[0u8, 0, 1, 2]),
             },
             cancel: if faulty { gen_cancel(rng, start_ms, 10) } else { CancelSpec::Never },
+            via_plain: rng.chance(1, 4),
         });
     }
     // later bursts around the open episode and the half-open instant
@@ -692,6 +815,7 @@ pub fn gen3(rng: &mut Rng, half_open_bias: bool) -> Scn3 {
                 yields: *rng.pick(&[0u8, 0, 1]),
             },
             cancel: if faulty { gen_cancel(rng, burst, 15) } else { CancelSpec::Never },
+            via_plain: rng.chance(1, 4),
         });
     }
     Scn3 {
@@ -703,6 +827,7 @@ pub fn gen3(rng: &mut Rng, half_open_bias: bool) -> Scn3 {
         reset_at: if rng.chance(1, 8) { Some(rng.below(3 * wait)) } else { None },
         probe: true,
         buggify: if rng.chance(1, 3) { rng.next_u64() | 1 } else { 0 },
+        overrides_via_plain: rng.chance(1, 2),
         knobs: SchedKnobs::gen(rng, faulty, 2 * wait),
     }
 }
@@ -796,6 +921,7 @@ pub fn run3(s: &Scn3, ctx: &mut RunCtx, prefix: &'static str) -> RunOutput {
         tower_resilience_core::verif::set_async_yield_hook(Some(world::hook_async_yield));
         let layer = build_layer!(&scn.cfg, b => b.build());
         let plain = layer.layer(SimInner::new(0));
+        let plain_clone = Cb::Plain(plain.clone());
         let base = match scn.fallback_ms {
             None => Cb::Plain(plain),
             Some(fl) => Cb::Fb(plain.with_fallback(move |req: Req| -> BoxFuture<'static, Result<Resp, SimErr>> {
@@ -823,14 +949,15 @@ pub fn run3(s: &Scn3, ctx: &mut RunCtx, prefix: &'static str) -> RunOutput {
             })
         };
         for (i, c) in scn.callers.iter().enumerate() {
-            defs.push(TaskDef { start_ms: c.start_ms, make: mk_call(base.clone(), i as u32), cancel: c.cancel.to_cancel() });
+            let h = if c.via_plain { plain_clone.clone() } else { base.clone() };
+            defs.push(TaskDef { start_ms: c.start_ms, make: mk_call(h, i as u32), cancel: c.cancel.to_cancel() });
         }
         // task n: late probe
         defs.push(TaskDef { start_ms: if scn.probe { probe_at } else { u64::MAX / 4 }, make: mk_call(base.clone(), n as u32), cancel: Cancel::Never });
         // manual overrides
         for (kind, at) in [(1i64, scn.force_open_at), (2, scn.force_closed_at), (3, scn.reset_at)] {
             if let Some(at) = at {
-                let h = base.clone();
+                let h = if scn.overrides_via_plain { plain_clone.clone() } else { base.clone() };
                 let make: Box<dyn FnOnce() -> LocalFut> = Box::new(move || {
                     Box::pin(async move {
                         world::note("manual", kind, 0);
@@ -922,7 +1049,8 @@ pub fn run3(s: &Scn3, ctx: &mut RunCtx, prefix: &'static str) -> RunOutput {
                     match t.status {
                         Status::Resolved => {
                             let o = t.out.as_ref().unwrap();
-                            let good = match s.fallback_ms {
+                            let fb = if s.callers.get(i).map(|c| c.via_plain).unwrap_or(false) { None } else { s.fallback_ms };
+                            let good = match fb {
                                 None => o.err == Some("OpenCircuit") && t.end_us == t.first_poll_us,
                                 Some(fl) => o.ok.as_ref().map(|r| r.svc == FB_SVC && r.req == i as u32).unwrap_or(false) && t.end_us == t.first_poll_us + fl * 1000,
                             };
